@@ -6,6 +6,11 @@ VERIF = os.path.dirname(os.path.dirname(os.path.abspath(__file__)))
 
 # id -> (technique, level text, level note, design ref)
 CHECKS = {
+    "C01": ("reference-model monitor: device simulator executes the emitted command paths; real second diff/patch observed",
+            "For generated rulebooks x every block-CLI vendor x chains of configuration pairs (plus an exhaustive small scope), the real _diff_and_patch output is "
+            "flattened by the real formatter and executed command by command on a reference device (one line per rule and key); the resulting state must equal the "
+            "desired configuration and the real second diff/patch on that state must be empty, along the whole chain. Held = every observed execution converged.",
+            "Trusted: R1/R2 reference rule selection and the R4 device model (vf/ref). Junos-like and RouterOS formatters are not simulated. Domain restrictions are listed in evidence assumptions.", "4/C01"),
     "C05": ("reference-model monitor (independent offside parser) over exhaustive small scope + random texts",
             "Every text in an exhaustively enumerated small scope (all indentation vectors up to 6/7 lines over columns 0..6, "
             "with comment/blank/section-break insertions) and seeded random longer texts is parsed by the real parse_to_tree "
